@@ -52,7 +52,7 @@ APPS = {
 }
 
 
-def make_app(app_names, local_host="local.node.example", local_realm="local.example"):
+def make_app(app_names, local_host="local.node.example", local_realm="local.example", manager=None):
     """-> (Bromelia app, {app id bytes: Worker}).  One spec entry (= one worker) per application."""
     common.bootstrap()
     import yaml
@@ -77,7 +77,7 @@ def make_app(app_names, local_host="local.node.example", local_realm="local.exam
         os.unlink(path)
     diams = app._create_applications(False, False)
     workers = {}
-    mgr = FakeManager()
+    mgr = manager or FakeManager()
     for d in diams:
         w = Worker(d, mgr)
         w.is_open.set()
